@@ -5,7 +5,7 @@ import itertools
 import lib
 from sx import S
 
-IDS = ['p', 'q', 'policy0', 'policy1', 'policy10', 'policy2', '']
+IDS = ['p', 'q', 'policy0', 'policy1', 'policy10', 'policy2', '', 'bell\x07', 'us\x1f', 'del\x7f', 'q"\\', 'tag\U000e0001', '\u00e9\u2028', '<&>']      # ids are arbitrary strings: control characters, DEL, quotes, non-BMP / unprintable code points, what JSON escapes specially
 NPOOL = 6
 
 
